@@ -68,6 +68,12 @@ def hexDigits (n : Nat) : List Char :=
 termination_by n
 decreasing_by omega
 
+/-- `format!("{n}")` for a non-negative integer. -/
+def decDigits (n : Nat) : List Char :=
+  if h : n < 10 then [Char.ofNat (48 + n)] else decDigits (n / 10) ++ [Char.ofNat (48 + n % 10)]
+termination_by n
+decreasing_by omega
+
 /-- the characters `char_to_string` prints as themselves before looking at the Unicode class -/
 def plainList : List Char :=
   [' ', '\'', '\n', '\r', '\t', Char.ofNat 11, Char.ofNat 12, Char.ofNat 8, Char.ofNat 7, '"', '\\']
@@ -101,18 +107,21 @@ def printAtom (u : UC) (quoted : Bool) (s : List Char) : List Char := printAtomI
 
 /-! ## heap_print.rs: spacing -/
 
-/-- `requires_space(atom, op)`: looks at the last character of what was printed and the first
-    character of what comes next. -/
+/-- the decision of `requires_space` for the last character `ac` of what was printed and the first
+    character `oc` of what comes next. -/
+def reqSpaceChars (u : UC) (ac oc : Char) : Bool :=
+  if ac == '0' then oc == '\'' || oc == '(' || alpha_numeric_char u oc
+  else if alpha_numeric_char u ac then oc == '(' || alpha_numeric_char u oc
+  else if graphic_token_char u ac then graphic_token_char u oc
+  else if variable_indicator_char u ac || capital_letter_char u ac then alpha_numeric_char u oc
+  else if sign_char u ac then sign_char u oc || decimal_digit_char u oc
+  else if single_quote_char u ac then single_quote_char u oc
+  else false
+
+/-- `requires_space(atom, op)`. -/
 def requiresSpace (u : UC) (prev next : List Char) : Bool :=
   match prev.getLast?, next.head? with
-  | some ac, some oc =>
-    if ac == '0' then oc == '\'' || oc == '(' || alpha_numeric_char u oc
-    else if alpha_numeric_char u ac then oc == '(' || alpha_numeric_char u oc
-    else if graphic_token_char u ac then graphic_token_char u oc
-    else if variable_indicator_char u ac || capital_letter_char u ac then alpha_numeric_char u oc
-    else if sign_char u ac then sign_char u oc || decimal_digit_char u oc
-    else if single_quote_char u ac then single_quote_char u oc
-    else false
+  | some ac, some oc => reqSpaceChars u ac oc
   | _, _ => false
 
 /-- the printer's output: the text and `last_item_idx` (counted in characters here). -/
@@ -407,6 +416,8 @@ structure UCWF (u : UC) : Prop where
   uppercase : ∀ c : Char, c.toNat < 128 → u.is_uppercase c = asciiUC.is_uppercase c
   whitespace : ∀ c : Char, c.toNat < 128 → u.is_whitespace c = asciiUC.is_whitespace c
   control : ∀ c : Char, c.toNat < 128 → u.is_control c = asciiUC.is_control c
+  /-- a Unicode fact: alphabetic characters are neither white space nor control characters -/
+  alpha_sane : ∀ c : Char, u.is_alphabetic c = true → u.is_whitespace c = false ∧ u.is_control c = false
 
 /-- a `UC` that is `asciiUC` below 128 and a finite table above (used by the driver: the table
     holds the answers of the implementation's own `char_type/2` for the characters of a case). -/
@@ -415,7 +426,7 @@ def mkUC (tbl : List (Nat × Nat)) : UC :=
     match tbl.find? (fun e => e.1 == c.toNat) with
     | some e => (e.2 / 2 ^ k) % 2 == 1
     | none => false
-  { is_alphabetic := fun c => if c.toNat < 128 then asciiUC.is_alphabetic c else bit 0 c
+  { is_alphabetic := fun c => if c.toNat < 128 then asciiUC.is_alphabetic c else (bit 0 c && !bit 3 c && !bit 4 c)
     is_numeric := fun c => if c.toNat < 128 then asciiUC.is_numeric c else bit 1 c
     is_uppercase := fun c => if c.toNat < 128 then asciiUC.is_uppercase c else bit 2 c
     is_whitespace := fun c => if c.toNat < 128 then asciiUC.is_whitespace c else bit 3 c
